@@ -1,5 +1,547 @@
-//! D3: direct-API cases (filled in later)
-pub fn main_fn(_args: &[String]) {
-    eprintln!("not implemented yet");
-    std::process::exit(2);
+//! D3: direct-API driver for the function-level properties (C04, C05, C19).
+//! Reads abstract cases written by TLC (specs/mc/MC_Fn.tla), concretises them (seeded), runs
+//! `Response::raw_print` into a buffer, parses the bytes with the harness's own client parser and
+//! writes one observation per case (ndjson) for TLC to judge.
+
+use crate::httpc;
+use serde_json::{json, Value};
+use std::io::{BufRead, Read, Write};
+use tiny_http::{HTTPVersion, Header, Response, StatusCode};
+
+fn arg(args: &[String], name: &str) -> Option<String> {
+    args.iter().position(|a| a == name).and_then(|i| args.get(i + 1).cloned())
+}
+
+struct Rng(u64);
+impl Rng {
+    fn next(&mut self) -> u64 {
+        let mut x = self.0;
+        x ^= x << 13;
+        x ^= x >> 7;
+        x ^= x << 17;
+        self.0 = x;
+        x.wrapping_mul(0x2545F4914F6CDD1D)
+    }
+    fn below(&mut self, n: usize) -> usize {
+        (self.next() % n as u64) as usize
+    }
+}
+
+struct PieceReader {
+    data: Vec<u8>,
+    pos: usize,
+    piece: usize,
+}
+
+impl Read for PieceReader {
+    fn read(&mut self, buf: &mut [u8]) -> std::io::Result<usize> {
+        let left = self.data.len() - self.pos;
+        let n = left.min(buf.len()).min(if self.piece == 0 { usize::MAX } else { self.piece });
+        buf[..n].copy_from_slice(&self.data[self.pos..self.pos + n]);
+        self.pos += n;
+        Ok(n)
+    }
+}
+
+fn body(n: usize) -> Vec<u8> {
+    (0..n).map(|i| b"tiny-http-verif|"[i % 16]).collect()
+}
+
+fn mixcase(s: &str, mode: usize) -> String {
+    match mode {
+        0 => s.to_string(),
+        1 => s.to_ascii_uppercase(),
+        _ => s
+            .chars()
+            .enumerate()
+            .map(|(i, c)| if i % 2 == 0 { c.to_ascii_uppercase() } else { c })
+            .collect(),
+    }
+}
+
+fn te_header(te: &Value, rng: &mut Rng) -> Option<String> {
+    let arr = te.as_array()?;
+    if arr.is_empty() {
+        return None;
+    }
+    let mut parts = Vec::new();
+    for e in arr {
+        let c = e["c"].as_str().unwrap_or("");
+        let name = match c {
+            "other" => ["gzip", "deflate", "compress"][rng.below(3)].to_string(),
+            x => x.to_string(),
+        };
+        let name = mixcase(&name, rng.below(3));
+        let q = match e["q"].as_str().unwrap_or("absent") {
+            "absent" => "".to_string(),
+            "1" => [";q=1", "; q=1.0", ";q=1.000"][rng.below(3)].to_string(),
+            "0.5" => [";q=0.5", "; q=0.5", ";q=0.50"][rng.below(3)].to_string(),
+            "0.001" => ";q=0.001".to_string(),
+            "0" => [";q=0", ";q=0.0", "; q=0.000"][rng.below(3)].to_string(),
+            _ => [";q=abc", ";q=", ";q=1..0"][rng.below(3)].to_string(),
+        };
+        parts.push(format!("{}{}", name, q));
+    }
+    Some(parts.join(if rng.below(2) == 0 { ", " } else { "," }))
+}
+
+/// header block of a raw response: (status, [(name, value)], offset of body)
+fn split_head(out: &[u8]) -> (u16, Vec<(String, String)>, usize) {
+    let he = out.windows(4).position(|w| w == b"\r\n\r\n").map(|p| p + 4).unwrap_or(out.len());
+    let head = String::from_utf8_lossy(&out[..he]).to_string();
+    let mut lines = head.split("\r\n");
+    let sl = lines.next().unwrap_or("");
+    let st = sl.split(' ').nth(1).and_then(|s| s.parse().ok()).unwrap_or(0);
+    let mut hs = Vec::new();
+    for l in lines {
+        if let Some(i) = l.find(':') {
+            hs.push((l[..i].to_string(), l[i + 1..].trim().to_string()));
+        }
+    }
+    (st, hs, he)
+}
+
+fn run_c05(case: &Value, id: &str, rng: &mut Rng) -> Value {
+    let ver = match case["ver"].as_str().unwrap() {
+        "0.9" => HTTPVersion(0, 9),
+        "1.0" => HTTPVersion(1, 0),
+        _ => HTTPVersion(1, 1),
+    };
+    let st: u16 = match case["st"].as_str().unwrap() {
+        "1xx" => [100, 150, 199][rng.below(3)],
+        "200" => 200,
+        "204" => 204,
+        "304" => 304,
+        _ => [201, 205, 404, 500, 299][rng.below(5)],
+    };
+    let thr: usize = match case["thr"].as_str().unwrap() {
+        "0" => 0,
+        "1" => 1,
+        "small" => 7,
+        "default" => 32768,
+        _ => usize::MAX,
+    };
+    let lenc = case["len"].as_str().unwrap();
+    let declared: Option<usize> = match lenc {
+        "unknown" => None,
+        "0" => Some(0),
+        "thr-1" => Some(thr - 1),
+        "thr" => Some(thr),
+        _ => Some(thr + 1),
+    };
+    let actual = match declared {
+        None => [0usize, 10, 9000][rng.below(3)],
+        Some(d) => d.min(70_000),
+    };
+    let faithful = declared.map_or(true, |d| d == actual);
+    let head = case["head"].as_bool().unwrap();
+    let upg = case["upg"].as_bool().unwrap();
+    let mut req_headers = Vec::new();
+    let te = te_header(&case["te"], rng);
+    if let Some(t) = &te {
+        let name = ["TE", "te", "Te"][rng.below(3)];
+        req_headers.push(Header::from_bytes(name.as_bytes(), t.as_bytes()).unwrap());
+    }
+    let mut resp = Response::new(
+        StatusCode(st),
+        vec![],
+        PieceReader {
+            data: body(actual),
+            pos: 0,
+            piece: 0,
+        },
+        declared,
+        None,
+    );
+    if case["thr"].as_str().unwrap() != "default" || rng.below(2) == 0 {
+        resp = resp.with_chunked_threshold(thr);
+    }
+    let mut out = Vec::new();
+    let r = resp.raw_print(&mut out, ver, &req_headers, head, if upg { Some("proto") } else { None });
+    let (_st, hs, he) = split_head(&out);
+    let cls: Vec<&(String, String)> = hs.iter().filter(|(n, _)| n.eq_ignore_ascii_case("Content-Length")).collect();
+    let tes: Vec<&(String, String)> = hs.iter().filter(|(n, _)| n.eq_ignore_ascii_case("Transfer-Encoding")).collect();
+    let hascl = !cls.is_empty();
+    let haste = !tes.is_empty() && tes.iter().all(|(_, v)| v.eq_ignore_ascii_case("chunked"));
+    let clmatches = cls.len() == 1 && cls[0].1.parse::<usize>().ok() == Some(declared.unwrap_or(actual));
+    // how the body was actually coded on the wire
+    let nobody = head || (100..200).contains(&st) || st == 204 || st == 304;
+    let wire = &out[he..];
+    let bodycoding = if nobody {
+        "nobody"
+    } else if upg {
+        "none"
+    } else if haste {
+        // must decode as chunks to the application's bytes
+        let mut p = httpc::Parser::new(vec![false]);
+        let fs = p.feed(&out);
+        if fs.len() == 1 && fs[0].wellformed && (!faithful || fs[0].body == body(actual)) {
+            "chunked"
+        } else {
+            "broken"
+        }
+    } else if hascl {
+        if !faithful || wire == &body(actual)[..] {
+            "identity"
+        } else {
+            "broken"
+        }
+    } else {
+        "broken"
+    };
+    json!({"prop":"C05","id":id,"case":case,"ok":r.is_ok(),"hascl":hascl,"haste":haste || !tes.is_empty(),
+           "clmatches":clmatches,"bodycoding":bodycoding,"status":st,"te":te.unwrap_or_default(),"wire":wire.len()})
+}
+
+fn run_c04(case: &Value, id: &str, _rng: &mut Rng) -> Value {
+    let status = case["status"].as_u64().unwrap() as u16;
+    let thr_c = case["thr"].as_str().unwrap();
+    let len_c = case["len"].as_str().unwrap();
+    let abs_len = |s: &str| -> Option<usize> { s.parse::<usize>().ok() };
+    let (len, thr): (usize, usize) = match (abs_len(len_c), thr_c) {
+        (Some(l), "len-1") => (l, l.saturating_sub(1)),
+        (Some(l), "len") => (l, l),
+        (Some(l), "len+1") => (l, l + 1),
+        (Some(l), "0") => (l, 0),
+        (Some(l), "1") => (l, 1),
+        (Some(l), "default") => (l, 32768),
+        (Some(l), _) => (l, usize::MAX),
+        (None, t) => {
+            // len relative to thr
+            let base: usize = match t {
+                "0" => 0,
+                "1" => 1,
+                "default" => 32768,
+                "max" => usize::MAX,
+                _ => 5000,
+            };
+            let (l, th) = match (len_c, t) {
+                (_, "len-1") => (5000, 4999),
+                (_, "len") => (5000, 5000),
+                (_, "len+1") => (5000, 5001),
+                ("thr-1", _) if base >= 1 && base < 1_000_000 => (base - 1, base),
+                ("thr", _) if base < 1_000_000 => (base, base),
+                ("thr+1", _) if base < 1_000_000 => (base + 1, base),
+                _ => (5000, base),
+            };
+            (l, th)
+        }
+    };
+    let declared = case["declared"].as_bool().unwrap();
+    let ver = if case["ver"].as_str().unwrap() == "1.0" { HTTPVersion(1, 0) } else { HTTPVersion(1, 1) };
+    let head = case["head"].as_bool().unwrap();
+    let piece = case["piece"].as_u64().unwrap() as usize;
+    let mut req_headers = Vec::new();
+    let te = case["te"].as_str().unwrap();
+    if te != "absent" {
+        req_headers.push(Header::from_bytes(&b"TE"[..], te.as_bytes()).unwrap());
+    }
+    let data = body(len);
+    let resp = Response::new(
+        StatusCode(status),
+        vec![Header::from_bytes(&b"X-App"[..], &b"v"[..]).unwrap()],
+        PieceReader {
+            data: data.clone(),
+            pos: 0,
+            piece,
+        },
+        if declared { Some(len) } else { None },
+        None,
+    )
+    .with_chunked_threshold(thr);
+    let mut out = Vec::new();
+    let r = resp.raw_print(&mut out, ver, &req_headers, head, None);
+    // the client sees these bytes followed by the next response on the same connection
+    let mut p = httpc::Parser::new(vec![head, false]);
+    p.ignore_upgrade = true;
+    let mut stream = out.clone();
+    let sentinel = b"HTTP/1.1 299 Sentinel\r\nContent-Length: 0\r\n\r\n";
+    stream.extend_from_slice(sentinel);
+    // 1xx final statuses are "interim" for a streaming parser: count every frame before the sentinel
+    let mut frames = p.feed(&stream);
+    let (more, junk) = p.finish();
+    frames.extend(more);
+    let sent_ok = frames.last().map_or(false, |f| f.status == 299);
+    let mine: Vec<&httpc::Frame> = frames.iter().take(frames.len().saturating_sub(if sent_ok { 1 } else { 0 })).collect();
+    let f = mine.first();
+    let mut case2 = case.clone();
+    case2["lenclass"] = case["len"].clone();
+    case2["len"] = json!(len);
+    case2["thrnum"] = json!(if thr == usize::MAX { -1i64 } else { thr as i64 });
+    json!({"prop":"C04","id":id,"case":case2,"ok":r.is_ok(),
+           "frames": mine.len(), "junk": if sent_ok { junk } else { junk + 1 },
+           "wf": f.map_or(false, |f| f.wellformed), "why": f.map_or("", |f| f.why),
+           "status": f.map_or(0, |f| f.status), "delim": f.map_or("", |f| f.delim),
+           "bodyok": f.map_or(false, |f| f.body == data), "blen": f.map_or(0, |f| f.body.len()),
+           "wire": f.map_or(0, |f| f.wire_body_bytes)})
+}
+
+fn class_name(n: &str, mode: &str) -> String {
+    let base = match n {
+        "connection" => "Connection",
+        "trailer" => "Trailer",
+        "te" => "Transfer-Encoding",
+        "upgrade" => "Upgrade",
+        "cl" | "clbad" => "Content-Length",
+        "ctype" => "Content-Type",
+        "date" => "Date",
+        "server" => "Server",
+        "xa" => "X-A",
+        _ => "X-B",
+    };
+    match mode {
+        "lower" => base.to_ascii_lowercase(),
+        "upper" => base.to_ascii_uppercase(),
+        _ => base.to_string(),
+    }
+}
+
+fn class_value(n: &str, v: u64) -> String {
+    match n {
+        "cl" => format!("{}", 11 * v),
+        "clbad" => format!("abc{}", v),
+        "date" => format!("Sun, 0{} Nov 1994 08:49:37 GMT", v),
+        "ctype" => format!("text/v{}", v),
+        _ => format!("app-{}-v{}", n, v),
+    }
+}
+
+fn days_from_civil(y: i64, m: i64, d: i64) -> i64 {
+    let y = if m <= 2 { y - 1 } else { y };
+    let era = if y >= 0 { y } else { y - 399 } / 400;
+    let yoe = y - era * 400;
+    let doy = (153 * (if m > 2 { m - 3 } else { m + 9 }) + 2) / 5 + d - 1;
+    let doe = yoe * 365 + yoe / 4 - yoe / 100 + doy;
+    era * 146097 + doe - 719468
+}
+
+/// IMF-fixdate -> seconds since the epoch
+fn parse_imf(s: &str) -> Option<i64> {
+    // "Sun, 06 Nov 1994 08:49:37 GMT"
+    let b = s.as_bytes();
+    if b.len() != 29 || &s[3..5] != ", " || &s[25..] != " GMT" {
+        return None;
+    }
+    let days = ["Mon", "Tue", "Wed", "Thu", "Fri", "Sat", "Sun"];
+    let wd = days.iter().position(|d| *d == &s[0..3])?;
+    let mons = ["Jan", "Feb", "Mar", "Apr", "May", "Jun", "Jul", "Aug", "Sep", "Oct", "Nov", "Dec"];
+    let d: i64 = s[5..7].parse().ok()?;
+    let mo = mons.iter().position(|m| *m == &s[8..11])? as i64 + 1;
+    let y: i64 = s[12..16].parse().ok()?;
+    let h: i64 = s[17..19].parse().ok()?;
+    let mi: i64 = s[20..22].parse().ok()?;
+    let se: i64 = s[23..25].parse().ok()?;
+    if b[7] != b' ' || b[11] != b' ' || b[16] != b' ' || b[19] != b':' || b[22] != b':' {
+        return None;
+    }
+    let dd = days_from_civil(y, mo, d);
+    // 1970-01-01 was a Thursday (index 3 in Mon..Sun)
+    if ((dd % 7 + 7 + 3) % 7) as usize != wd {
+        return None;
+    }
+    Some(dd * 86400 + h * 3600 + mi * 60 + se)
+}
+
+fn observe_headers(out: &[u8], list: &[(String, u64)]) -> (Vec<Value>, usize, usize, usize, bool) {
+    let (_st, hs, _he) = split_head(out);
+    let mut sent = Vec::new();
+    let mut ndate = 0;
+    let mut nserver = 0;
+    let mut nprot = 0;
+    let mut datevalid = false;
+    let now = std::time::SystemTime::now().duration_since(std::time::UNIX_EPOCH).unwrap().as_secs() as i64;
+    let app_has = |c: &str| list.iter().any(|(n, _)| n == c);
+    for (n, v) in hs.iter() {
+        let ln = n.to_ascii_lowercase();
+        // map back to (class, value id)
+        let back = |cls: &str| -> Option<u64> { (1..=2).find(|k| class_value(cls, *k) == *v) };
+        match ln.as_str() {
+            "date" => {
+                ndate += 1;
+                if app_has("date") {
+                    if let Some(k) = back("date") {
+                        sent.push(json!({"n":"date","v":k}));
+                    } else {
+                        sent.push(json!({"n":"date","v":0}));
+                    }
+                } else if let Some(t) = parse_imf(v) {
+                    datevalid = (t - now).abs() <= 2;
+                }
+            }
+            "server" => {
+                nserver += 1;
+                if app_has("server") {
+                    sent.push(json!({"n":"server","v":back("server").unwrap_or(0)}));
+                }
+            }
+            "content-type" => sent.push(json!({"n":"ctype","v":back("ctype").unwrap_or(0)})),
+            "x-a" => sent.push(json!({"n":"xa","v":back("xa").unwrap_or(0)})),
+            "x-b" => sent.push(json!({"n":"xb","v":back("xb").unwrap_or(0)})),
+            "connection" | "trailer" | "upgrade" => nprot += 1,
+            "transfer-encoding" => {
+                if !v.eq_ignore_ascii_case("chunked") {
+                    nprot += 1;
+                }
+            }
+            "content-length" => {
+                if v.parse::<usize>().is_err() {
+                    nprot += 1;
+                }
+            }
+            _ => sent.push(json!({"n":ln,"v":0})),
+        }
+    }
+    if hs.iter().filter(|(n, _)| n.eq_ignore_ascii_case("Content-Length")).count() > 1 {
+        nprot += 1;
+    }
+    (sent, ndate, nserver, nprot, datevalid)
+}
+
+fn run_c19(case: &Value, id: &str, _rng: &mut Rng) -> Value {
+    let list: Vec<(String, u64)> = case["list"]
+        .as_array()
+        .unwrap()
+        .iter()
+        .map(|h| (h["n"].as_str().unwrap().to_string(), h["v"].as_u64().unwrap()))
+        .collect();
+    let mode = case["ncase"].as_str().unwrap();
+    let route = case["route"].as_str().unwrap();
+    let hdrs: Vec<Header> = list
+        .iter()
+        .enumerate()
+        .map(|(i, (n, v))| {
+            let m = if mode == "mixed" { ["std", "lower", "upper"][i % 3] } else { mode };
+            Header::from_bytes(class_name(n, m).as_bytes(), class_value(n, *v).as_bytes()).unwrap()
+        })
+        .collect();
+    let data = b"hello".to_vec();
+    let resp = match route {
+        "ctor" => Response::new(StatusCode(200), hdrs, std::io::Cursor::new(data), Some(5), None),
+        "add" => {
+            let mut r = Response::new(StatusCode(200), vec![], std::io::Cursor::new(data), Some(5), None);
+            for h in hdrs {
+                r.add_header(h);
+            }
+            r
+        }
+        _ => {
+            let mut r = Response::new(StatusCode(200), vec![], std::io::Cursor::new(data), Some(5), None);
+            for h in hdrs {
+                r = r.with_header(h);
+            }
+            r
+        }
+    };
+    let declared = resp.data_length().map(|x| x as i64).unwrap_or(-1);
+    let mut out = Vec::new();
+    let _ = resp.raw_print(&mut out, HTTPVersion(1, 1), &[], true, None);
+    let (sent, ndate, nserver, nprot, datevalid) = observe_headers(&out, &list);
+    let mut case2 = case.clone();
+    case2["ctorlen"] = json!(5);
+    json!({"prop":"C19","id":id,"case":case2,"sent":sent,"ndate":ndate,"nserver":nserver,"nprotected":nprot,
+           "datevalid":datevalid,"declared":declared})
+}
+
+/// constructors: declared length = byte length of the data they were given
+fn ctor_cases(out: &mut Vec<Value>) {
+    let mut k = 0;
+    let mut push = |name: &str, declared: Option<usize>, bytes: usize, raw: Vec<u8>, out: &mut Vec<Value>| {
+        let (sent, ndate, nserver, nprot, datevalid) = observe_headers(&raw, &[]);
+        // from_string adds its own Content-Type: that is the constructor's header, not the application's
+        let sent: Vec<Value> = sent.into_iter().filter(|h| h["n"] != "ctype").collect();
+        out.push(json!({"prop":"C19","id":format!("C19-ctor-{}-{}", name, k),
+            "case":{"list":[],"route":name,"ncase":"std","ctorlen":bytes as i64},
+            "sent":sent,"ndate":ndate,"nserver":nserver,"nprotected":nprot,"datevalid":datevalid,
+            "declared":declared.map(|x| x as i64).unwrap_or(-1)}));
+        k += 1;
+    };
+    for s in ["", "a", "hello world", "h\u{e9}llo w\u{f6}rld \u{20ac}", "\u{1F600}\u{1F600}", "\u{65e5}\u{672c}\u{8a9e}"] {
+        let r = Response::from_string(s);
+        let d = r.data_length();
+        let mut o = Vec::new();
+        let _ = r.raw_print(&mut o, HTTPVersion(1, 1), &[], true, None);
+        push("from_string", d, s.len(), o, out);
+    }
+    for n in [0usize, 1, 5000, 40000] {
+        let r = Response::from_data(body(n));
+        let d = r.data_length();
+        let mut o = Vec::new();
+        let _ = r.raw_print(&mut o, HTTPVersion(1, 1), &[], true, None);
+        push("from_data", d, n, o, out);
+    }
+    for n in [0usize, 1, 5000] {
+        let dir = std::env::var("VERIF_TMP").unwrap_or_else(|_| "/verif/work".to_string());
+        let _ = std::fs::create_dir_all(&dir);
+        let p = format!("{}/fnfile-{}-{}.bin", dir, std::process::id(), n);
+        std::fs::write(&p, body(n)).unwrap();
+        let r = Response::from_file(std::fs::File::open(&p).unwrap());
+        let d = r.data_length();
+        let mut o = Vec::new();
+        let _ = r.raw_print(&mut o, HTTPVersion(1, 1), &[], true, None);
+        let _ = std::fs::remove_file(&p);
+        push("from_file", d, n, o, out);
+    }
+    for st in [200u16, 204, 404] {
+        let r = Response::empty(st);
+        let d = r.data_length();
+        let mut o = Vec::new();
+        let _ = r.raw_print(&mut o, HTTPVersion(1, 1), &[], true, None);
+        push("empty", d, 0, o, out);
+    }
+    for n in [0usize, 7, 3000] {
+        let r = Response::from_string("some other text").with_data(std::io::Cursor::new(body(n)), Some(n));
+        let d = r.data_length();
+        let mut o = Vec::new();
+        let _ = r.raw_print(&mut o, HTTPVersion(1, 1), &[], true, None);
+        push("with_data", d, n, o, out);
+    }
+}
+
+pub fn main_fn(args: &[String]) {
+    let cases = arg(args, "--cases").expect("--cases");
+    let outp = arg(args, "--out").expect("--out");
+    let prop = arg(args, "--prop").expect("--prop");
+    let seed: u64 = arg(args, "--seed").and_then(|s| s.parse().ok()).unwrap_or(1);
+    let mut rng = Rng(seed.wrapping_mul(0x9E3779B97F4A7C15) | 1);
+    let f = std::io::BufReader::new(std::fs::File::open(&cases).expect("open cases"));
+    let mut out = std::io::BufWriter::new(std::fs::File::create(&outp).expect("create out"));
+    let mut n = 0u64;
+    for line in f.lines() {
+        let line = line.unwrap();
+        if line.trim().is_empty() {
+            continue;
+        }
+        let case: Value = match serde_json::from_str(&line) {
+            Ok(c) => c,
+            Err(e) => {
+                eprintln!("TOOL-ERROR bad case: {}", e);
+                std::process::exit(2);
+            }
+        };
+        let id = format!("{}-{:06}", prop, n);
+        let r = std::panic::catch_unwind(std::panic::AssertUnwindSafe(|| match prop.as_str() {
+            "C05" => run_c05(&case, &id, &mut rng),
+            "C04" => run_c04(&case, &id, &mut rng),
+            _ => run_c19(&case, &id, &mut rng),
+        }));
+        let o = match r {
+            Ok(o) => o,
+            Err(_) => {
+                eprintln!("TOOL-ERROR case {} panicked in the driver or the library: {}", id, line);
+                std::process::exit(2);
+            }
+        };
+        writeln!(out, "{}", o).unwrap();
+        n += 1;
+    }
+    if prop == "C19" {
+        let mut extra = Vec::new();
+        ctor_cases(&mut extra);
+        for o in extra {
+            writeln!(out, "{}", o).unwrap();
+            n += 1;
+        }
+    }
+    out.flush().unwrap();
+    println!("DONE cases={}", n);
 }
